@@ -271,6 +271,8 @@ def known(w, p):
         return 'D2'
     if 'D13' in w.flags:
         return 'D13'
+    if 'D16' in w.flags:
+        return 'D16'
     return None
 
 
@@ -298,8 +300,13 @@ def yaml_world(g, tag):
     text = '\n'.join(lines) + ('\n' if r.random() < 0.7 else '')
     tk = r.choice(sorted(vals))
     ypath, fp = vals[tk]
-    pool = list(docs.YAML_TRICKY_STRINGS) + (docs.YAML_DEFECT_STRINGS if os.environ.get('VERIF_YAML_DEFECT_STRINGS') else [])
-    if r.random() < 0.5:
+    pool = list(docs.YAML_TRICKY_STRINGS)
+    d16 = False
+    if r.random() < 0.08:
+        # the strings of known finding D16 (re-parsed as float / sequence / mapping, dropped, or a panic)
+        ph = json.dumps(r.choice(docs.YAML_DEFECT_STRINGS))
+        d16 = True
+    elif r.random() < 0.5:
         # a replacement STRING that would be something else (a number, a bool, null, a mapping, a comment,
         # nothing at all) if it were written into the document bare
         ph = json.dumps(r.choice(pool))
@@ -310,6 +317,8 @@ def yaml_world(g, tag):
     # the replacement comes from Any's placeholder or from a Custom callback
     mt = docs.any_matcher([ypath], ph) if r.random() < 0.6 else docs.custom_matcher(ypath, True, ph)
     w = World(tag)
+    if d16:
+        w.flags.add('D16')
 
     def oracle(line, raw, ww):
         if not raw.startswith('mdoc '):
